@@ -102,6 +102,24 @@ VH_OP(enc) {
   return "ok " + vh::hex(buf.data(), buf.size()) + " " + std::to_string(nep) + " " + std::to_string(nef);
 }
 
+// one run of the Encoder API (not the ExpertEncoder, which is bound to its geometry) on a caller-supplied object
+static std::string enc_with(Encoder &e, const std::vector<std::string> &a) {
+  size_t sep = 1;
+  while (sep < a.size() && a[sep] != "--") ++sep;
+  if (sep >= a.size()) return "bad-op";
+  auto o = kvs(a, 1, sep);
+  size_t pos = sep + 1;
+  bool is_mesh = false;
+  std::unique_ptr<PointCloud> pc = vh::parse_geometry(a, pos, &is_mesh);
+  std::string err;
+  if (!apply_opts(e, o, [](int k) { return static_cast<GeometryAttribute::Type>(k); }, &err)) return err;
+  EncoderBuffer buf;
+  Status st = is_mesh ? e.EncodeMeshToBuffer(*static_cast<Mesh *>(pc.get()), &buf) : e.EncodePointCloudToBuffer(*pc, &buf);
+  if (!st.ok()) return "err-encode";
+  return "ok " + vh::hex(buf.data(), buf.size()) + " " + std::to_string(e.num_encoded_points()) + " " +
+         std::to_string(e.num_encoded_faces());
+}
+
 static std::string decode_bytes(const std::vector<uint8_t> &d, const std::string &skip) {
   DecoderBuffer b;
   b.Init(reinterpret_cast<const char *>(d.data()), d.size());
@@ -125,6 +143,26 @@ static std::string decode_bytes(const std::vector<uint8_t> &d, const std::string
            (p->GetMetadata() ? " meta " + vh::dump_geometry_metadata(*p->GetMetadata()) : std::string());
   }
   return "err";
+}
+
+// encdech <enc args of A> ;; <enc args of B>: ONE draco::Encoder object encodes geometry A (result dropped), then —
+// with B's options applied on top of whatever A left — geometry B; output as `encdec` for B
+VH_OP(encdech) {
+  size_t cut = 1;
+  while (cut < a.size() && a[cut] != ";;") ++cut;
+  if (cut >= a.size()) return "bad-op";
+  std::vector<std::string> A(a.begin(), a.begin() + cut), B;
+  B.push_back(a[0]);
+  B.insert(B.end(), a.begin() + cut + 1, a.end());
+  Encoder e;
+  (void)enc_with(e, A);
+  std::string r = enc_with(e, B);
+  if (r.rfind("ok ", 0) != 0) return r;
+  std::istringstream ss(r);
+  std::string okt, hx;
+  ss >> okt >> hx;
+  auto d = vh::unhex(hx);
+  return r + " | " + decode_bytes(d, "-") + " | " + decode_bytes(d, "01234") + " | -";
 }
 
 // dec <skip types e.g. 01 or -> <hex>  -> ok <consumed> <geometry> | err | err-version
